@@ -46,6 +46,8 @@ fn parse_ty(v: &Value, idx: &HashMap<String, usize>) -> Ty {
         "set" => Ty::Set(Box::new(parse_ty(&v["set"]["itemType"], idx))),
         "map" => Ty::Map(Box::new(parse_ty(&v["map"]["keyType"], idx)), Box::new(parse_ty(&v["map"]["valueType"], idx))),
         "reference" => Ty::Ref(idx[v["reference"]["name"].as_str().unwrap()]),
+        // an imported type is its fallback on the wire
+        "external" => parse_ty(&v["external"]["fallback"], idx),
         other => panic!("type kind {}", other),
     }
 }
@@ -425,6 +427,9 @@ fn faults(ir: &Ir, t: &Ty, doc: &Tree, rng: &mut Rng, depth: usize) -> Vec<(Stri
                 let mut ys = ms.clone();
                 ys[ti].1 = Tree::Int(3);
                 out.push(("union-type-not-string".into(), Tree::Obj(ys)));
+                // two different names, neither of them declared, in both member orders
+                out.push(("union-unknown-names-disagree".into(), Tree::Obj(vec![("type".into(), Tree::Str("notDeclaredA".into())), ("notDeclaredB".into(), Tree::Int(1))])));
+                out.push(("union-unknown-names-disagree".into(), Tree::Obj(vec![("notDeclaredB".into(), Tree::Int(1)), ("type".into(), Tree::Str("notDeclaredA".into()))])));
                 if let Some((_, vt)) = vs.iter().find(|v| v.0 == ms[pi].0) {
                     for (l, f) in faults(ir, vt, &ms[pi].1, rng, depth + 1) {
                         let mut ys = ms.clone();
@@ -446,7 +451,7 @@ pub fn cases(seed: u64, tier: Tier) -> Cases {
     let ir = load_ir();
     let defs = defs_sexp(&ir);
     let reg: HashMap<&'static str, verifgen::Entry> = verifgen::registry().into_iter().map(|e| (e.name, e)).collect();
-    let per_type = if tier == Tier::Quick { 4 } else { 40 };
+    let per_type = if tier == Tier::Quick { 4 } else { 12 };
     for (i, name) in ir.names.iter().enumerate() {
         let entry = match reg.get(name.as_str()) {
             Some(e) => e,
@@ -485,8 +490,26 @@ pub fn cases(seed: u64, tier: Tier) -> Cases {
                         cs.push(&class, op, real.clone(), nontrivial, format!("{} {} {} {}: {}", name, cfg, if server { "server" } else { "client" }, label, String::from_utf8_lossy(&bytes)));
                         // the statement itself: valid documents are accepted, single-fault documents rejected
                         // (unknown fields are C05's: ignored by clients), and a panic is never acceptable
+                        let not_omitted: Option<String> = match (&ir.defs[i], &r) {
+                            (Def::Object(fs), Ok(Ok(s))) if !emp => match serde_json::from_str::<Tree>(s) {
+                                Ok(Tree::Obj(ms)) => fs.iter().find_map(|(fname, ft)| {
+                                    let omittable = matches!(dealias(&ir, ft), Ty::Opt(_) | Ty::List(_) | Ty::Set(_) | Ty::Map(_, _));
+                                    let v = ms.iter().find(|m| &m.0 == fname).map(|m| &m.1);
+                                    match v {
+                                        Some(Tree::Null) if omittable => Some(format!("`{}` is written as null", fname)),
+                                        Some(Tree::Arr(xs)) if omittable && xs.is_empty() => Some(format!("`{}` is written as []", fname)),
+                                        Some(Tree::Obj(xs)) if omittable && xs.is_empty() && !matches!(dealias(&ir, ft), Ty::Opt(_)) => Some(format!("`{}` is written as {{}}", fname)),
+                                        _ => None,
+                                    }
+                                }),
+                                _ => None,
+                            },
+                            _ => None,
+                        };
                         if let Err(p) = &r {
                             cs.fail_last(&format!("panic:{}", name), format!("{} panicked on {}: {}", name, String::from_utf8_lossy(&bytes), p));
+                        } else if let Some(w) = not_omitted {
+                            cs.fail_last("absent-or-empty-not-omitted", format!("{} ({}, {}): {} in the re-serialization of {}: {}", name, cfg, if server { "server" } else { "client" }, w, String::from_utf8_lossy(&bytes), real));
                         } else if label == "valid" && real == "err" && !(exh && String::from_utf8_lossy(&bytes).contains("\"none\"")) {
                             cs.fail_last(&format!("valid-rejected:{}", name), format!("{} ({}, {}) rejects a document that is valid for its definition: {} ({:?})", name, cfg, if server { "server" } else { "client" }, String::from_utf8_lossy(&bytes), r));
                         } else if label != "valid" && label != "unknown-field" && real != "err" {
